@@ -474,6 +474,7 @@ pub fn property() -> Property {
                 signature: no_signature,
                 essential: &["has_comma", "no_comma"],
                 workers: w,
+                decode: None,
             }),
             Box::new(Gen::<FloatCase> {
                 name: "floatcount",
@@ -488,6 +489,7 @@ pub fn property() -> Property {
                 signature: no_signature,
                 essential: &["has_comma", "negative", "non_finite", "precision0", "fraction_kept"],
                 workers: w,
+                decode: Some(|u| FloatCase { bits: u.u64(), precision: if u.n(3) == 0 { None } else { Some(u.n(25) as u8) } }),
             }),
             Box::new(Gen::<BytesCase> {
                 name: "bytes",
@@ -498,6 +500,7 @@ pub fn property() -> Property {
                 signature: no_signature,
                 essential: &["plain", "prefixed", "peta_or_more"],
                 workers: w,
+                decode: None,
             }),
             Box::new(Gen::<DurCase> {
                 name: "durations",
@@ -512,6 +515,7 @@ pub fn property() -> Property {
                 signature: no_signature,
                 essential: &["two_units", "above_seconds", "days"],
                 workers: w,
+                decode: Some(|u| DurCase { a_secs: u.u64() >> u.n(63), a_nanos: u.u32() % 1_000_000_000, b_secs: u.u64() >> u.n(63), b_nanos: u.u32() % 1_000_000_000 }),
             }),
             Box::new(Enumerated {
                 name: "boundaries",
